@@ -17,16 +17,17 @@ EXTENDS Objects, TLC
 
 VARIABLE A        \* the abstract array [shape, v]; the empty tensor is [shape |-> <<>>, v |-> <<0>>]
 
-KInt(i)      == [t |-> "i", a |-> i, b |-> 0, idx |-> <<>>]
-KSlice(l, h) == [t |-> "s", a |-> l, b |-> h, idx |-> <<>>]
-KList(ix)    == [t |-> "l", a |-> 0, b |-> 0, idx |-> ix]
+KInt(i)      == [t |-> "i", a |-> i, b |-> 0, c |-> 1, idx |-> <<>>]
+KSlice(l, h) == [t |-> "s", a |-> l, b |-> h, c |-> 1, idx |-> <<>>]
+KStep(l, h, st) == [t |-> "s", a |-> l, b |-> h, c |-> st, idx |-> <<>>]     \* slice l:h:st with a positive step
+KList(ix)    == [t |-> "l", a |-> 0, b |-> 0, c |-> 1, idx |-> ix]
 
 \* indices selected by key element k in a mode of current size n (in key order)
 IdxSeq(k, n) ==
   CASE k.t = "i" -> <<IF k.a < 0 THEN n + k.a ELSE k.a>>
     [] k.t = "s" -> LET lo == IF k.a < 0 THEN 0 ELSE k.a
                         hi == IF k.b < 0 THEN n ELSE k.b
-                    IN  UpTo(lo, hi - 1)
+                    IN  SelectSeq(UpTo(lo, hi - 1), LAMBDA x : (x - lo) % k.c = 0)
     [] k.t = "l" -> k.idx
 \* mode size needed to hold the selection
 Needed(k, n) ==
